@@ -529,7 +529,12 @@ def tree_round_trip_rule(chk, src):
             itd = SymInterp(src, None, {"np": OpenSym("np", savez=lambda fname, **kw: saved.update(kw)), "logger": Blob("logger"),
                                         "super": lambda: Sym("super", dump=lambda fname, other_attrs=None: itd.call_function(base_d, [me, fname, other_attrs]))})
             itd.builtins["len"] = lambda x: n if x is me else len(x)
-            itd.call_function(fd or base_d, [me, "file"] + ([extra] if cname == "TTNBase" else []))
+            from ..syminterp import SymRaise
+            fail = None
+            try:
+                itd.call_function(fd or base_d, [me, "file"] + ([extra] if cname == "TTNBase" else []))
+            except (AttributeError, KeyError, IndexError, TypeError, SymRaise, AnalysisError) as e:
+                fail = f"writer: {type(e).__name__}: {e}"
 
             class Archive(Sym):
                 """np.load result: mapping with a `files` list (in the archive's own, unspecified order)"""
@@ -553,11 +558,16 @@ def tree_round_trip_rule(chk, src):
                                         "copy_connection": lambda a, b: conn.append((a, list(b))),
                                         "super": lambda: Sym("super", load=lambda basis, fname, other_attrs=None: itl.call_function(base_l, [ctor, basis, fname, other_attrs]))})
             basis = Sym("basis", node_list=["bn"] * n)
-            out = itl.call_function(fl, [ctor, basis, "file"] + ([extra] if cname == "TTNBase" else []))
+            out = None
+            if fail is None:
+                try:
+                    out = itl.call_function(fl, [ctor, basis, "file"] + ([extra] if cname == "TTNBase" else []))
+                except (AttributeError, KeyError, IndexError, TypeError, SymRaise, AnalysisError) as e:
+                    fail = f"reader fed with the writer's archive: {type(e).__name__}: {e}"
             want = [(f"tensor-of-node{i}", f"qn-of-node{i}") for i in range(n)]
-            ok = made == want and len(conn) == 1 and conn[0][1] == [("node", i) for i in range(n)] and out is inst[-1] and out.root == ("node", 0) and getattr(out, "coeff", None) == "the-coeff" \
+            ok = fail is None and made == want and len(conn) == 1 and conn[0][1] == [("node", i) for i in range(n)] and bool(inst) and out is inst[-1] and out.root == ("node", 0) and getattr(out, "coeff", None) == "the-coeff" \
                 and saved.get("version") is not None
-            wrong = [f"node {i}: {m}" for i, (m, w) in enumerate(zip(made, want)) if m != w][:2]
+            wrong = ([fail] if fail else []) + [f"node {i}: {m}" for i, (m, w) in enumerate(zip(made, want)) if m != w][:2]
             chk.ob("tree-round-trip", f"{cname}.dump -> {cname}.load [{n} nodes]", ok, fl.where, wrong or {"nodes": len(made), "coeff": getattr(out, "coeff", None), "root": getattr(out, "root", None)},
                    "node i restored from (tensor_i, qn_i) for i = 0..n-1 in node order; extra attributes restored; root = node 0", line=fl.node.lineno,
                    detail=f"{cname}: a dumped tree state must reload with every tensor (and its labels) on its own node: " + (wrong[0] if wrong else "attributes / connectivity differ") +
@@ -582,6 +592,14 @@ def chain_round_trip_rule(chk, src):
 
         def __getitem__(self, k):
             return Val(f"{self._name}[{k!r}]")
+
+        @property
+        def real(self):
+            return Val(self._name + ".real")
+
+        @property
+        def imag(self):
+            return Val(self._name + ".imag")
     for cname, rel in (("MatrixProduct", MP), ("Mps", MPS)):
         fl = src.func(rel, f"{cname}.load")
         base_d = src.func(MP, "MatrixProduct.dump")
@@ -612,7 +630,12 @@ def chain_round_trip_rule(chk, src):
             itd = SymInterp(src, None, {"np": OpenSym("np", savez=lambda fname, **kw: saved.update(kw), empty=lambda n_, t=None: ObjArr()), "logger": Blob("logger"), "object": object,
                                         "super": lambda: Sym("super", dump=lambda fname, other_attrs=None: itd.call_function(base_d, [me, fname, other_attrs]))})
             itd.builtins["isinstance"] = lambda x, t: isinstance(x, t) if isinstance(t, type) else False
-            itd.call_function(fd, [me, "file"])
+            from ..syminterp import SymRaise
+            fail = None
+            try:
+                itd.call_function(fd, [me, "file"])
+            except (AttributeError, KeyError, IndexError, TypeError, SymRaise, AnalysisError) as e:
+                fail = f"writer: {type(e).__name__}: {e}"
 
             class Archive(Sym):
                 def __getitem__(self, k):
@@ -628,9 +651,14 @@ def chain_round_trip_rule(chk, src):
                 return got["obj"]
             itl = SymInterp(src, None, {"np": OpenSym("np", load=lambda *a, **k: Archive("npload"), iscomplexobj=lambda x: False), "backend": Blob("backend"), "logger": Blob("logger"),
                                         "int": lambda x: x, "bool": lambda x: x})
-            out = itl.call_function(fl, [cls_, "model", "file"])
+            out = None
+            if fail is None:
+                try:
+                    out = itl.call_function(fl, [cls_, "model", "file"])
+                except (AttributeError, KeyError, IndexError, TypeError, SymRaise, AnalysisError) as e:
+                    fail = f"reader fed with the writer's archive: {type(e).__name__}: {e}"
             o = got.get("obj")
-            probs = []
+            probs = [fail] if fail else []
             if got["sites"] != [f"array-of-site{i}" for i in range(n)]:
                 probs.append(f"sites restored as {got['sites'][:4]}...")
             oq = getattr(o, "qn", None)
